@@ -314,15 +314,14 @@ bloom_filter_alloc<A> bloom_filter_alloc<A>::deserialize(std::istream& is, const
   // allocate memory
   const uint64_t num_bytes = num_bits >> 3;
   AllocUint8 alloc(allocator);
+  // the bits arrive in bounded chunks first, so that a length the stream cannot back fails before a large allocation
+  std::vector<uint8_t, AllocUint8> bits(alloc);
+  read_in_chunks(is, bits, static_cast<size_t>(num_bytes));
   uint8_t* bit_array = alloc.allocate(num_bytes);
   if (bit_array == nullptr) {
     throw std::bad_alloc();
   }
-  read(is, bit_array, num_bytes);
-  if (!is.good()) {
-    alloc.deallocate(bit_array, num_bytes);
-    throw std::runtime_error("error reading from std::istream");
-  }
+  std::memcpy(bit_array, bits.data(), num_bytes);
 
   // pass to constructor
   return bloom_filter_alloc<A>(seed, num_hashes, is_dirty, true, false, num_bits, num_bits_set, bit_array, nullptr, allocator);
